@@ -901,7 +901,7 @@ def _loglin_terms(p):
             continue
         if len(m) == 1 and m[0][1] == 1:
             at = _ATOMS[m[0][0]]
-            if at.kind in ("par", "Lg", "At", "Cl") or (at.kind == "UF" and at.real):
+            if at.kind in ("par", "Lg", "At", "Cl", "Abs") or (at.kind == "UF" and at.real):
                 out.append((Fr(c), at))
                 continue
         raise Unmodelled("exp/cis of a non-linear argument: %s" % p.short())
